@@ -107,7 +107,7 @@ Definition is_nil {B} (l : list B) : bool := match l with [] => true | _ => fals
 Definition from_blocks_strict (bs : list block) : res tb :=
   if is_nil bs then Err "ErrorInitTypeBlocks" else Ok (from_blocks bs).
 
-(* ============ TypeBlocks._drop_blocks (type_blocks.py:1329-1420) ============ *)
+(* ============ TypeBlocks._drop_blocks (type_blocks.py:1342-1433 at e1c1c73) ============ *)
 (* the `while targets_remain` loop for one block: returns (targets still pending, parts, drop_block,
    part_start_last) *)
 Fixpoint drop_inner (b : block) (bi : Z) (ts : list (Z * slice)) (drop : bool) (psl : Z)
@@ -165,7 +165,7 @@ Definition M_drop_blocks (t : tb) (ck : option ckey) (rowf : list A -> list A) :
              end
   end.
 
-(* ============ TypeBlocks._mask_blocks (type_blocks.py:1099-1140) ============ *)
+(* ============ TypeBlocks._mask_blocks (type_blocks.py:1112-1153) ============ *)
 Fixpoint set_flags (flags : list bool) (j : Z) (js : list Z) : list bool :=
   match flags with
   | [] => []
@@ -208,7 +208,7 @@ Definition M_mask_blocks (t : tb) (k : ckey) (on off : list A) : res tb :=
              end
   end.
 
-(* ============ TypeBlocks._astype_blocks (type_blocks.py:1142-1212) ============
+(* ============ TypeBlocks._astype_blocks (type_blocks.py:1155-1225) ============
    `conv d cells` is NumPy's cells.astype(dtype) for cells of dtype d *)
 Section AsType.
 Variable dt : dtype.
@@ -272,7 +272,7 @@ Definition M_astype_blocks (t : tb) (k : ckey) : res tb :=
   end.
 End AsType.
 
-(* ============ TypeBlocks._assign_from_iloc_by_unit (type_blocks.py:1561-1670), column part ============
+(* ============ TypeBlocks._assign_from_iloc_by_unit (type_blocks.py:1574-1683), column part ============
    The column key was made ascending by the caller (FrameAssignILoc: key_to_ascending_key) and is walked with
    retain_key_order=True.  `is_slice` = the targets are slices (False only for an integer column key);
    `sliceable` = the value has a length and is not a string, so that a piece of it is cut off for every slice
@@ -359,7 +359,7 @@ Definition M_assign_unit_blocks (t : tb) (k : ckey) : res tb :=
   end.
 End AssignUnit.
 
-(* ============ Frame._insert (frame.py:6102-6161), block part ============
+(* ============ Frame._insert (frame.py:6106-6165), block part ============
    _slice_blocks(column_key=slice(0, key)) ++ inserted blocks ++ _slice_blocks(column_key=slice(key, None)) *)
 Definition M_insert_blocks (t : tb) (key : Z) (ins : tb) : res tb :=
   match M_select_columns t (CSlice (mk_slice (Some 0) (Some key) None)),
